@@ -913,6 +913,9 @@ Proof.
   - intros H. apply B3, A3. exact H.
 Qed.
 
+Lemma sub_core_set_ent x e v : sub_core x (set_ent x e v).
+Proof. destruct x as [es er pc pk hs], e; unfold sub_core; cbn; repeat split; auto. Qed.
+
 Lemma deliver_sub x hid ok : sub_core x (deliver x hid ok).
 Proof.
   destruct (deliver_fields x hid ok) as (F1 & F2 & _). unfold sub_core. rewrite F1, F2.
@@ -938,16 +941,15 @@ Proof.
       intros s [v Hv]. apply lookup_delete_Some in Hv. destruct Hv. eauto. }
     destruct claimed; cbn in H.
     + destruct (ent x e); [|destruct (fl_close_asserts fl); [discriminate|]]; inversion H; subst; [|exact Hd].
-      destruct x as [es er pc pk hs], e; exact Hd.
+      eapply sub_core_trans; [exact Hd|apply sub_core_set_ent].
     + inversion H; subst. exact Hd.
-  - destruct (ent x (other_end e)) as [[]|]; try discriminate; inversion H; subst;
-      destruct x as [es er pc pk hs], e; apply sub_core_refl.
+  - destruct (ent x (other_end e)) as [[]|]; try discriminate; inversion H; subst; apply sub_core_set_ent.
   - destruct (k_pclaim x !! serial) as [[e hid0]|] eqn:E; cbn in H; [|discriminate].
     assert (Hd : sub_core x (x <| k_pclaim ::= delete serial |>)).
     { destruct x as [es er pc pk hs]. unfold sub_core; cbn. split; [auto|]. split; [|repeat split; auto].
       intros s [v Hv]. apply lookup_delete_Some in Hv. destruct Hv. eauto. }
     assert (Hd' : forall st, sub_core x (set_ent (x <| k_pclaim ::= delete serial |>) e st)).
-    { intros st. destruct x as [es er pc pk hs], e; exact Hd. }
+    { intros st. eapply sub_core_trans; [exact Hd|apply sub_core_set_ent]. }
     destruct e, r; cbn in H; try discriminate.
     + destruct (k_es x); [discriminate|]. inversion H; subst. eapply sub_core_trans; [apply (Hd' (Some EEstablished))|apply deliver_sub].
     + inversion H; subst. eapply sub_core_trans; [exact Hd|apply deliver_sub].
@@ -955,8 +957,7 @@ Proof.
     + destruct (k_er x); [discriminate|]. inversion H; subst. eapply sub_core_trans; [apply (Hd' (Some EEstablished))|apply deliver_sub].
     + inversion H; subst. eapply sub_core_trans; [exact Hd|apply deliver_sub].
     + inversion H; subst. eapply sub_core_trans; [exact Hd|apply deliver_sub].
-  - destruct (ent x (other_end (end_of_cap e))) as [[]|]; try discriminate; inversion H; subst;
-      destruct x as [es er pc pk hs], e; apply sub_core_refl.
+  - destruct (ent x (other_end (end_of_cap e))) as [[]|]; try discriminate; inversion H; subst; apply sub_core_set_ent.
   - destruct (k_es x) as [[]|]; try discriminate; inversion H; subst; apply sub_core_refl.
   - destruct (k_er x) as [[]|]; try discriminate; inversion H; subst; apply sub_core_refl.
 Qed.
